@@ -39,7 +39,10 @@ def check_C10(tier, replay):
                              "seed": rng.randrange(1 << 30), "sample": 0 if l <= 1001 else 600})
             jobs.append({"kind": "Dist", "id": f"dist.n{n}.ands", "n": n, "l_rand": 2 * (40 if q else 250), "l_and": 40 if q else 250,
                          "seed": rng.randrange(1 << 30), "sample": 0})
+        # one long AND batch (message chunking / index arithmetic beyond small powers of two)
+        jobs.append({"kind": "Dist", "id": "dist.n2.longbatch", "n": 2, "l_rand": 4400, "l_and": 2200, "seed": 9, "sample": 300})
         if not q:
+            jobs.append({"kind": "Dist", "id": "dist.n3.longbatch", "n": 3, "l_rand": 5000, "l_and": 2500, "seed": 9, "sample": 300})
             # bucket size 4 (>= 3100 triples in one batch)
             jobs.append({"kind": "Dist", "id": "dist.n2.bucket4", "n": 2, "l_rand": 6200, "l_and": 3100, "seed": 5, "sample": 400})
         for n in (2, 3) if q else (2, 3, 4, 5):
